@@ -707,6 +707,7 @@ func (c *CVMContract) execute(st engine.State, params engine.CallParams) ([]byte
 			retSize := stack.Pop64()
 			c.debugf(" => %v\n", target)
 
+			gasBeforeCall := new(big.Int).Set(params.Gas)
 			var err error
 			returnData, err = engine.CallFromSite(st, c.externalDispatcher, params, engine.CallParams{
 				CallType: callTypeFromOpCode(op),
@@ -732,9 +733,13 @@ func (c *CVMContract) execute(st engine.State, params engine.CallParams) ([]byte
 				maybe.PushError(err)
 			}
 
-			// TODO: decide how to handle this
-			// Apply refund of any unused gas
+			// Apply refund of any unused gas. When CallFromSite returned before setting the callee's allowance aside
+			// (unknown address, call stack overflow) nothing was deducted and gasLimit is still the raw stack operand:
+			// adding it back must never leave the frame with more gas than it had before the call.
 			params.Gas.Add(params.Gas, gasLimit)
+			if params.Gas.Cmp(gasBeforeCall) > 0 {
+				params.Gas.Set(gasBeforeCall)
+			}
 
 			c.debugf("resume %s (%v)\n", params.Callee, params.Gas)
 
